@@ -967,10 +967,10 @@ def family_c04(tier, seed):
               ("range-1..1", dict(range=(-1, 1))), ("range..0", dict(range=(None, 0))), ("range0..2", dict(range=(0, 2))),
               ("range-2..-1", dict(range=(-2, -1))),
               ("rows..-1", dict(rows=(None, -1))), ("rows1..", dict(rows=(1, None))), ("range..-1", dict(range=(None, -1))), ("range1..", dict(range=(1, None))),
-              ("rows..1", dict(rows=(None, 1))), ("rows-1..", dict(rows=(-1, None)))]
+              ("rows..1", dict(rows=(None, 1))), ("rows-1..", dict(rows=(-1, None))), ("range..", dict(range=(None, None)))]
     if tier == "quick":
         frames = [f for f in frames if f[0] in ("none", "rows-1..1", "rows..0", "rows1..2", "rolling2", "expanding", "range-1..1", "range0..2",
-                                                "rows..-1", "rows1..", "range1..", "rows-1..")]
+                                                "rows..-1", "rows1..", "range1..", "rows-1..", "range..", "rows..")]
     for fn in WIN_FUNCS:
         for part in (None, "a"):
             for order in (None, "c", "-c"):
@@ -1118,6 +1118,19 @@ def family_c05(tier, seed):
         ("p:shadow-join-known-two", [From("t"), Select("a", "b"), Join([From("u"), Select("a", "b")], "==a"), Derive(a=C("t.b") + 1, b=C("u.a") + 2)]),
         ("p:shadow-twice", [From("t"), Select("a", "b"), Derive(a=b + 1), Derive(a=C("a") * 2)]),
         ("p:shadow-group", [From("t"), Select("a", "b", "c"), Group(["a"], Sort("c"), Derive(b=Fn("row_number", C("this"))))]),
+        ("p:append-unnamed-top", [From("t"), Select(a * 2, "c"), Append([From("u"), Select("a", "b")])]),
+        ("p:append-unnamed-top-both", [From("t"), Select(a * 2, b + 1), Append([From("u"), Select("a", "b")])]),
+        ("p:append-unnamed-bottom", [From("t"), Select("a", "b"), Append([From("u"), Select(C("a") + 1, "b")])]),
+        ("p:append-shadowed-top", [From("t"), Select("a", "b"), Derive(a=b + 1), Append([From("u"), Select("a", "b", x=C("a") + C("b"))])]),
+        ("p:append-permute-after", [From("t"), Select("a", "b"), Append([From("u"), Select("a", "b")]), Select("b", "a")]),
+        ("p:append-subset-after", [From("t"), Select("a", "b"), Append([From("u"), Select("a", "b")]), Select("b")]),
+        ("p:append-derive-chain-permute", [From("t"), Select("a", "b"), Derive(z=a + b), Derive(w=C("z") * 2), Select("b", "w"),
+                                           Append([From("u"), Select("a", "b")]), Select("w", "b")]),
+        ("p:append-derive-chain-subset", [From("t"), Select("a", "b"), Derive(z=a + b), Derive(w=C("z") * 2), Select("b", "w"),
+                                          Append([From("u"), Select("a", "b")]), Select("w")]),
+        ("p:append-derive-chain", [From("t"), Select("a", "b"), Derive(z=a + b), Derive(w=C("z") * 2), Select("b", "w"), Append([From("u"), Select("a", "b")])]),
+        ("p:append-derive-permute-filter", [From("t"), Select("a", "b"), Derive(z=a + b), Select("z", "a"), Append([From("u"), Select("a", "b")]),
+                                            Select("a", "z"), Filter(C("z") > 0)]),
         ("p:wild-excl", [From("t"), SelectNot("b")]),
         ("p:wild-excl2", [From("t"), SelectNot("a", "c")]),
         ("p:join-wild-excl-left", [From("t"), J(), SelectNot("t.b")]),
